@@ -156,3 +156,15 @@ Fixpoint st_run (st : list Z) (gs : list Z) : option (list Z) :=
   | [] => Some st
   | g :: rest => match st_next st g with Some st' => st_run st' rest | None => None end
   end.
+
+(* A terminal report is an ErrorGrammar call that changes neither the offset nor needComma (an ErrorGrammar
+   call never changes the state stack): every further call repeats it.  Calls that are not terminal reports
+   are "active". *)
+Definition idle_b (p : parser) (u : unit_) (p' : parser) : bool :=
+  (fst u =? G_Error) && (lpos (pz p') =? lpos (pz p)) && Bool.eqb (pneed p') (pneed p).
+
+Fixpoint count_active (p : parser) (tr : list (unit_ * parser)) : Z :=
+  match tr with
+  | [] => 0
+  | (u, p') :: rest => (if idle_b p u p' then 0 else 1) + count_active p' rest
+  end.
